@@ -39,6 +39,8 @@ type Module struct {
 	// ImportPrefix maps an imported module to the prefix used for it here.
 	ImportPrefix map[*Module]string
 	Groupings    []*Node // top-level groupings (visible to others)
+	Typedefs     []*Node // top-level typedefs
+	Identities   []*Node // identities
 }
 
 // Set is a generated module set in intended load order.
@@ -60,11 +62,12 @@ type Config struct {
 	ConfigStmts  bool
 	Notification bool
 	BadRate      float64 // scales every deliberate-fault probability
+	Typedefs     bool    // typedefs (chains, restrictions, enums, unions), identities and identityrefs
 }
 
 func Default() Config {
 	return Config{MaxModules: 3, Submodules: true, Augments: true, Deviations: true, RPCs: true, Choices: true,
-		Groupings: true, BadRefs: true, MaxDepth: 3, ConfigStmts: true, Notification: true, BadRate: 0.3}
+		Groupings: true, BadRefs: true, MaxDepth: 3, ConfigStmts: true, Notification: true, BadRate: 0.3, Typedefs: true}
 }
 
 var nodeNames = []string{"x", "y", "z", "w"}
@@ -75,6 +78,7 @@ type genr struct {
 	r      *rand.Rand
 	cfg    Config
 	augSeq int
+	cur    *Module // module whose statements are being generated (for type references)
 }
 
 func (g *genr) pick(ss []string) string { return ss[g.r.Intn(len(ss))] }
@@ -137,6 +141,11 @@ func Generate(r *rand.Rand, cfg Config) *Set {
 		}
 		set.Mods = append(set.Mods, subs...)
 	}
+	if cfg.Typedefs {
+		for _, m := range set.Mods {
+			g.typedefs(m, set)
+		}
+	}
 	// groupings first (so that uses can refer to them), then bodies
 	if cfg.Groupings {
 		for _, m := range set.Mods {
@@ -189,7 +198,7 @@ func Generate(r *rand.Rand, cfg Config) *Set {
 }
 
 func (g *genr) leafAttrs(n *Node, inOps bool) {
-	n.add("type", g.pick(leafTypes))
+	g.typeRef(n)
 	if g.cfg.ConfigStmts && !inOps && g.chance(0.25) {
 		n.add("config", g.pick([]string{"true", "false"}))
 	}
@@ -203,6 +212,103 @@ func (g *genr) leafAttrs(n *Node, inOps bool) {
 	}
 	if g.chance(0.1) {
 		n.add("description", "some text")
+	}
+}
+
+// typeRef adds a type statement to n: a built-in, or (when the module being filled has typedefs in
+// sight) a typedef reference with or without prefix, or an inline restriction.
+func (g *genr) typeRef(n *Node) {
+	m := g.cur
+	if !g.cfg.Typedefs || m == nil || g.chance(0.55) {
+		n.add("type", g.pick(leafTypes))
+		return
+	}
+	var refs []string
+	for _, td := range m.Typedefs {
+		refs = append(refs, td.Arg, m.Prefix+":"+td.Arg)
+	}
+	root := m
+	if m.Sub {
+		root = m.Owner
+		for _, td := range root.Typedefs {
+			refs = append(refs, td.Arg)
+		}
+	}
+	for _, s := range root.Includes {
+		if s != m {
+			for _, td := range s.Typedefs {
+				refs = append(refs, td.Arg)
+			}
+		}
+	}
+	for _, o := range m.Imports {
+		for _, td := range o.Typedefs {
+			refs = append(refs, m.ImportPrefix[o]+":"+td.Arg)
+		}
+	}
+	switch k := g.r.Intn(10); {
+	case k <= 5 && len(refs) > 0:
+		t := n.add("type", refs[g.r.Intn(len(refs))])
+		_ = t
+	case k == 6:
+		t := n.add("type", "int8")
+		t.add("range", g.pick([]string{"1..10", "min..0", "-5..5|7", "0..max"}))
+	case k == 7:
+		t := n.add("type", "enumeration")
+		t.add("enum", "a")
+		e := t.add("enum", "b")
+		if g.chance(0.5) {
+			e.add("value", g.pick([]string{"5", "-1", "1"}))
+		}
+	case k == 8 && len(m.Identities) > 0:
+		t := n.add("type", "identityref")
+		t.add("base", m.Prefix+":"+m.Identities[g.r.Intn(len(m.Identities))].Arg)
+	case g.bad(0.3):
+		n.add("type", g.pick([]string{"nosuch", "px:t", m.Prefix + ":nosuch"}))
+	default:
+		t := n.add("type", "string")
+		if g.chance(0.5) {
+			t.add("length", g.pick([]string{"1..10", "0..5|8", "2..max"}))
+		}
+		if g.chance(0.3) {
+			t.add("pattern", g.pick([]string{"a*", "[a-z]+"}))
+		}
+	}
+}
+
+// typedefs adds 0-3 top-level typedefs (chains, restrictions) and 0-3 identities to m.
+func (g *genr) typedefs(m *Module, set *Set) {
+	g.cur = m
+	ni := g.r.Intn(3)
+	for i := 0; i < ni; i++ {
+		id := &Node{Kw: "identity", Arg: g.pick([]string{"i", "j", "k"}) + fmt.Sprint(i)}
+		if len(m.Identities) > 0 && g.chance(0.6) {
+			id.add("base", m.Identities[g.r.Intn(len(m.Identities))].Arg)
+		}
+		for _, o := range m.Imports {
+			if len(o.Identities) > 0 && g.chance(0.3) {
+				id.add("base", m.ImportPrefix[o]+":"+o.Identities[g.r.Intn(len(o.Identities))].Arg)
+				break
+			}
+		}
+		m.Identities = append(m.Identities, id)
+		m.Body.Kids = append(m.Body.Kids, id)
+	}
+	nt := g.r.Intn(4)
+	used := map[string]bool{}
+	for i := 0; i < nt; i++ {
+		name := g.pick([]string{"t", "u", "v"})
+		if used[name] {
+			continue
+		}
+		used[name] = true
+		td := &Node{Kw: "typedef", Arg: name}
+		g.typeRef(td)
+		if g.chance(0.25) {
+			td.add("units", "tu")
+		}
+		m.Typedefs = append(m.Typedefs, td)
+		m.Body.Kids = append(m.Body.Kids, td)
 	}
 }
 
@@ -237,7 +343,19 @@ func (g *genr) visibleGroupings(m *Module, set *Set, local []*Node) [][2]interfa
 			out = append(out, [2]interface{}{gr.Arg, gr})
 		}
 	}
-	_ = root
+	if m.Sub {
+		// a submodule sees its owner's groupings and those of the owner's other submodules
+		for _, gr := range root.Groupings {
+			out = append(out, [2]interface{}{gr.Arg, gr})
+		}
+		for _, s := range root.Includes {
+			if s != m {
+				for _, gr := range s.Groupings {
+					out = append(out, [2]interface{}{gr.Arg, gr})
+				}
+			}
+		}
+	}
 	for _, o := range m.Imports {
 		for _, gr := range o.Groupings {
 			out = append(out, [2]interface{}{m.ImportPrefix[o] + ":" + gr.Arg, gr})
@@ -247,6 +365,7 @@ func (g *genr) visibleGroupings(m *Module, set *Set, local []*Node) [][2]interfa
 }
 
 func (g *genr) fillBody(m *Module, set *Set, parent *Node, depth int, inGrouping bool) {
+	g.cur = m
 	inOps := false
 	n := g.r.Intn(4)
 	if depth == 0 {
@@ -272,7 +391,7 @@ func (g *genr) fillBody(m *Module, set *Set, parent *Node, depth int, inGrouping
 			g.leafAttrs(parent.add("leaf", name), inOps)
 		case k == 3:
 			ll := parent.add("leaf-list", name)
-			ll.add("type", g.pick(leafTypes))
+			g.typeRef(ll)
 			g.listAttrs(ll)
 			if g.chance(0.2) {
 				ll.add("default", "a")
@@ -476,6 +595,7 @@ func (g *genr) targetModule(m *Module) (*Module, string) {
 }
 
 func (g *genr) augment(m *Module, set *Set) {
+	g.cur = m
 	t, pfx := g.targetModule(m)
 	paths := t.Paths()
 	var cands []SchemaPath
@@ -533,6 +653,7 @@ func (g *genr) augment(m *Module, set *Set) {
 }
 
 func (g *genr) deviation(m *Module, set *Set) {
+	g.cur = m
 	t, pfx := g.targetModule(m)
 	paths := t.Paths()
 	var target string
